@@ -712,7 +712,8 @@ fn render(c: &Case) -> String {
                 let V::M(j, _) = v1 else { unreachable!() };
                 let fname = &c.decls[*j].fields[k].name;
                 s.push_str(&format!("    v{i}k = {e1_full}\n    mut c{i} = v{i}a.clone()\n    println(f\"Ca{i}={{c{i} == v{i}a}}\")\n"));
-                s.push_str(&format!("    c{i}.{fname} = {}\n", expr(&nv, &c.decls, true, false)));
+                // a string literal assigned to a field is emitted as &str today (C02's business): go through sk(..)
+                s.push_str(&format!("    c{i}.{fname} = {}\n", expr(&nv, &c.decls, false, false)));
                 s.push_str(&format!("    println(f\"Cb{i}={{c{i} == v{i}a}}\")\n    println(f\"Cc{i}={{v{i}a == v{i}k}}\")\n"));
             }
         }
